@@ -388,3 +388,29 @@ Proof.
   - exists v. split; [reflexivity|]. eapply parse_fuel_sound; eauto.
   - apply parse_fuel_no_err in E. lia.
 Qed.
+
+(* ---------------- the caller's scratch stream (D81) ---------------- *)
+(* whatever the scratch stream holds on entry, the result is that of a parse with a fresh stream *)
+Theorem parse_stream_any : forall w st s,
+  match parse_stream w st s with JOk (v, _) => JOk v | JErr e => JErr e end = parse w s.
+Proof.
+  intros w st s. unfold parse_stream, parse_stream_fuel, parse, parse_fuel.
+  destruct (length s =? 0)%nat; [reflexivity|].
+  destruct (pval (2 * length s + 4) w [] (trim s)) as [[[v r1] st1]|e]; cbn [bind]; [|reflexivity].
+  destruct (has (trim r1)); reflexivity.
+Qed.
+
+(* a sequence of texts through one stream: every result is the result for that text alone *)
+Theorem parse_history_independent : forall w texts st, parse_history w st texts = map (parse w) texts.
+Proof.
+  intros w texts. induction texts as [|s more IH]; intros st; [reflexivity|]. cbn [parse_history map].
+  pose proof (parse_stream_any w st s) as H.
+  destruct (parse_stream w st s) as [[v st']|e]; rewrite <- H; f_equal; apply IH.
+Qed.
+
+(* what D81 repaired: WITHOUT the clearing step a leftover shows up in the next escaped string.
+   Stream [a; LF] as left by a failed parse; the text  [ quote x backslash t y quote ]  then yields  a LF x TAB y *)
+Example d81_leftover_without_clear :
+  pval 20 0 [97; 10] [91; 34; 120; 92; 116; 121; 34; 93] = JOk (JArr [JStr [97; 10; 120; 9; 121]], [], []) /\
+  parse_stream 0 [97; 10] [91; 34; 120; 92; 116; 121; 34; 93] = JOk (JArr [JStr [120; 9; 121]], []).
+Proof. split; vm_compute; reflexivity. Qed.
